@@ -22,7 +22,7 @@ RULE = ("router sets: 1–4 routers × 0–4 registrations each over 4 names × 
         "itself); jobs: every (name, queue) pair of the pools, ×2; a case = one (router set, job pair), distinct by "
         "(registrations, job name, job queue)")
 F15 = "F15-mem-rotation-livelock"
-ASSUMPTIONS = ["in-memory broker (Redis prefix filter: C07.topic_prefix_exact; RabbitMQ reject+requeue: not exercised)"]
+ASSUMPTIONS = ["router sets on the in-memory broker; shared-queue scenarios also on the Redis and RabbitMQ brokers (in-process fake servers, assumption sets R, A: RabbitMQ requeues a rejected message at its original position)"]
 
 NAMES = ["a", "b", "c", "d"]
 QUEUES = ["q1", "q2", "q3"]
